@@ -9,6 +9,7 @@ import gen, lib
 
 HALTING = "register pP { c : 8 = 0; }\np_c = P_c + 1;\npc = 0;\nStat = [ P_c == 2 : STAT_HLT; 1 : STAT_AOK; ];\n"
 FOREVER = "pc = 0;\nStat = STAT_AOK;\n"
+BUBBLING = "register cC { n : 8 = 0; }\nc_n = C_n + 1;\npc = 0;\nStat = [ (C_n)[2..3] == 0 : STAT_BUB; 1 : STAT_AOK; ];\n"      # never stops either: bubbles and OK cycles alternate
 ERRSTAT = "pc = 0;\nStat = STAT_INS;\n"
 ABORTS = "register pP { c : 8 = 0; }\np_c = P_c + 1;\npc = 0;\nwire d : 8;\nd = 7 / (2 - P_c);\nStat = STAT_AOK;\n"
 REJECTED = "wire x : 8;\npc = 0;\nStat = STAT_AOK;\n"
@@ -72,7 +73,7 @@ def check(report, tier, seed):
     res = collections.Counter()
     with tempfile.TemporaryDirectory(dir=lib.CACHE) as d:
         files = {}
-        for name, text in (("halting.hcl", HALTING), ("forever.hcl", FOREVER), ("errstat.hcl", ERRSTAT), ("aborts.hcl", ABORTS), ("rejected.hcl", REJECTED)):
+        for name, text in (("halting.hcl", HALTING), ("forever.hcl", FOREVER), ("bubbling.hcl", BUBBLING), ("errstat.hcl", ERRSTAT), ("aborts.hcl", ABORTS), ("rejected.hcl", REJECTED)):
             files[name] = os.path.join(d, name)
             open(files[name], "w").write(text)
         good_yo = os.path.join(d, "prog.yo")
@@ -99,7 +100,11 @@ def check(report, tier, seed):
         for k in range(n):
             opts = [o for o in OPTIONS if rng.random() < (0.05 if o in ("-h", "--help", "--version", "--bogus", "-Z", "-dd", "--debug=1", "--chec", "-", "--h", "--v", "--d=1", "", "--c") else 0.11)]
             rng.shuffle(opts)
-            hk = rng.choice(["halting", "halting", "forever", "errstat", "aborts", "rejected", "missing"])
+            hk = rng.choice(["halting", "halting", "forever", "bubbling", "errstat", "aborts", "rejected", "missing"])
+            plain = k < 105        # first the well-formed invocations: every program x every small timeout, a few output options
+            if plain:
+                opts = list(rng.choice([[], ["-q"], ["-t"], ["-q", "-t"], ["--quiet"], ["-d"]]))
+                hk = ["halting", "forever", "bubbling", "errstat", "aborts"][k % 5]
             hcl_path = files.get(hk + ".hcl", os.path.join(d, "nonexistent.hcl"))
             yk = rng.choice(["good", "good", "good", "missing", "wrongext", "bad", "latin", "named", "named"])
             if yk == "named":
@@ -108,19 +113,21 @@ def check(report, tier, seed):
                 yo_path = {"good": good_yo, "missing": os.path.join(d, "nothere.yo"), "wrongext": wrong_ext, "bad": bad_yo, "latin": rng.choice(sorted(latin))}[yk]
             nfree = rng.choice([0, 1, 2, 2, 3, 3, 3, 4])
             t = rng.choice(TIMEOUTS)
-            if hk == "forever" and t in ("9999", "4294967295", None):
+            if plain:
+                yo_path, nfree, t = good_yo, 3, ["0", "1", "2", "3", "4", "5", "7", "9", "12"][(k // 5) % 9]
+            if hk in ("forever", "bubbling") and t in ("9999", "4294967295", None):
                 t = rng.choice(["0", "1", "3", "+5", "007"])
             free = [hcl_path, yo_path, t if t is not None else "5", "extra"][:nfree]
             if t is None and nfree >= 3:
                 free = free[:2]
-            if rng.random() < 0.06 and free:
+            if rng.random() < 0.06 and free and not plain:
                 # an argument that is not valid UTF-8: it is read lossily and reported like any other bad argument
                 j = rng.randrange(len(free))
                 free[j] = rng.choice(["\udcff.hcl", "prog\udcfe.yo", "1\udcff", "\udcc3("])
             args = list(opts)
             pos = rng.randint(0, len(args))
             args = args[:pos] + free + args[pos:]
-            if rng.random() < 0.1:
+            if rng.random() < 0.1 and not plain:
                 # "--" ends the options: everything after it is positional, whatever it looks like
                 cut = rng.randint(0, len(args))
                 args = args[:cut] + ["--"] + args[cut:]
@@ -144,7 +151,7 @@ def check(report, tier, seed):
         # syntax); the outside world is a table: what each file is for the front end, for the loader, and from
         # which cycle budget on the simulation of that HCL file aborts
         bad_as_hcl = "U" if open(bad_yo, "rb").read().startswith(b"\xff") else "R"
-        world = [(files["halting.hcl"], "A", "U", "-"), (files["forever.hcl"], "A", "U", "-"), (files["errstat.hcl"], "A", "U", "-"),
+        world = [(files["halting.hcl"], "A", "U", "-"), (files["forever.hcl"], "A", "U", "-"), (files["bubbling.hcl"], "A", "U", "-"), (files["errstat.hcl"], "A", "U", "-"),
                  (files["aborts.hcl"], "A", "U", "3"), (files["rejected.hcl"], "R", "U", "-"),
                  (good_yo, "R", "L", "-"), (wrong_ext, "R", "L", "-"), (bad_yo, bad_as_hcl, "U", "-")]
         world += [(pth, "U", "U", "-") for pth in latin]
@@ -197,7 +204,7 @@ def check(report, tier, seed):
                     report.violation("cli-failure-silent", "exit status 1 without a message", rep)
             if want[2] == "final":
                 t = int(want[3])
-                if hk == "forever" and ("timed out after %5d cycles" % t) not in out:
+                if hk in ("forever", "bubbling") and ("timed out after %5d cycles" % t) not in out:
                     report.violation("cli-timeout-not-honoured", "timeout %d not honoured: %s" % (t, out[-200:]), rep)
                 if hk == "halting" and t > 3 and "Cycles run: 3" not in out:      # at t == 3 halt and timeout coincide: no "Cycles run" line (kept observation)
                     report.violation("cli-wrong-run", "halting program did not report 3 cycles", rep)
@@ -210,7 +217,7 @@ def check(report, tier, seed):
             for i, (args, inv, hk, lossy) in enumerate(cases):
                 if n_full >= (12 if tier == "quick" else 150):
                     break
-                if i not in observed or observed[i][0] != 0 or b"-------" not in observed[i][1] or hk == "forever":
+                if i not in observed or observed[i][0] != 0 or b"-------" not in observed[i][1] or hk in ("forever", "bubbling"):
                     continue
                 n_full += 1
                 with open("/dev/full", "wb") as sink:
@@ -242,7 +249,7 @@ def check(report, tier, seed):
                 continue                    # the extracted model spends fuel in unary: huge budgets are checked by C06 instead
             if any("\ufffd" in a for a in lossy):
                 continue
-            if hk == "forever" and budget(inv["free"]) > 200:
+            if hk in ("forever", "bubbling") and budget(inv["free"]) > 200:
                 continue                    # thousands of cycles of output: nothing new, and slow in the extracted model
             chosen.append(i)
             quota[observed[i][0] == 0] -= 1
